@@ -478,6 +478,18 @@ def monitor_c02(ctx, lines: list[str]) -> None:
         want = (frame[:2], frame[3:6], frame[37:41], frame[42:45], frame[46:])
         if fields != want:
             ctx.violate("C02", "fields", "", f"{s!r}: parsed fields {fields} != text fields {want}")
+        # annotation transparency (the documented line format is: packet[ < hint][ * err_msg][ # comment]): whatever follows the
+        # '#' is a comment -- it may contain '*' or '<' -- and leaves the packet what it was
+        if n % 7 == 0 and not any(c in s for c in "#*<"):
+            for note in (" # setpoint: 2*2.5C", " # 5 < 7", " # *", " < a parser hint # and a comment with a * in it"):
+                try:
+                    p2 = Packet.from_port(_dt.datetime(2024, 1, 10, 12), s + note)
+                    if str(p2) != frame:
+                        ctx.violate("C02", "print_parse", "annotated", f"{(s + note)!r} printed {str(p2)!r}, expected {frame!r}")
+                except Exception as err:  # noqa
+                    ctx.violate("C02", "print_parse", "annotated", f"{(s + note)!r} is rejected ({type(err).__name__}: {err}) although "
+                                f"{s!r} is a valid packet line")
+                    break
         addrs = " ".join(a.id for a in pkt._addrs)
         if addrs != frame[7:36]:
             ctx.violate("C02", "addrs", "", f"{s!r}: address fields {addrs!r} != {frame[7:36]!r}")
